@@ -61,6 +61,9 @@ def instances(tier, seed):
         k = nleaves(s)
         for pos in (range(k) if tier != 'quick' else [seed % k, (seed + 1) % k] if k > 1 else [0]):
             out.append({'shape': s, 'sym': pos, 'vlen': 1 if tier == 'quick' else 2, 'wide': None})
+        # the symbolic condition with the empty value (the "tag is absent" shorthand value) under every shape
+        for pos in (range(k) if (tier != 'quick' or k <= 2) else [seed % k]):
+            out.append({'shape': s, 'sym': pos, 'vlen': 0, 'wide': None})
         # repeated conditions: all concrete conditions identical, the symbolic one may coincide with them
         if k > 1:
             out.append({'shape': s, 'sym': (seed + 2) % k, 'vlen': 1, 'wide': None, 'same': True})
@@ -69,7 +72,7 @@ def instances(tier, seed):
 def bounds(tier):
     return {'quick': 'single conditions with every operator / constructor (new, tag, tag_exists, tag_absent) / tag in {Artist, Album, MUSICBRAINZ_TRACKID, Other(1..2 symbolic letters)} '
                      'and all ASCII values of length 0..3 (LF excluded) plus one 2-byte scalar; every tree shape of depth <= 2 with <= 3 conditions built with negate/!/and, '
-                     'one condition symbolic (operator, tag, 1-byte value) at two seed-chosen positions, the others concrete and distinct, plus each shape once with all concrete conditions identical (the symbolic one may coincide)',
+                     'one condition symbolic (operator, tag, 1-byte value; also with the empty value) at two seed-chosen positions, the others concrete and distinct, plus each shape once with all concrete conditions identical (the symbolic one may coincide)',
             'thorough': 'single conditions with values of length 0..4; every tree shape of depth <= 3 with <= 4 conditions, the symbolic condition at every position with a 2-byte value'}[tier]
 
 TAGSPECS = ['Artist', 'Album', 'MusicBrainzRecordingId', 'Other']
